@@ -1,0 +1,11 @@
+//go:build !verif
+// +build !verif
+
+package socket
+
+// The named points below are hooks for the runtime monitors under /verif; without the
+// build tag verif they are empty and inlined away.
+
+func verifYield(point string) {}
+
+func verifNewConn(c *conn) {}
